@@ -14,16 +14,16 @@ from vf.checks.c01 import scratch
 from vf.core import Sub
 
 PROP = "C15"
-TECHNIQUE = "property-based testing: reference slicing of known PCM-16 file contents (exact equality) for load_clip / load_recording + axis invariants (strictly increasing, start, agreement with the advertised step within one step) for load_recording, load_clip, resample and compute_spectrogram"
+TECHNIQUE = "property-based testing: reference slicing of known WAV file contents (PCM-16/24/32, float, double) (exact equality) for load_clip / load_recording + axis invariants (strictly increasing, start, agreement with the advertised step within one step) for load_recording, load_clip, resample and compute_spectrogram"
 LEVEL_TEXT = (
-    "PCM-16 WAV files holding a deterministic integer ramp (every frame distinct) are written by the check for 11 sample rates x 1-3 channels; clips are "
+    "WAV files (PCM-16 mostly, also PCM-24/32, FLOAT, DOUBLE) holding a deterministic 16-bit integer ramp (every frame distinct, exactly representable in each subtype) are written by the check for 21 sample rates x 1-3 channels; clips are "
     "generated on and off sample boundaries, of zero length, ending at, straddling and starting at the end of file, with time-expansion factors {0.5,1,2,5,10}; "
     "load_clip must return exactly floor(duration x samplerate) frames equal to the file frames from floor(start x samplerate) on, zero-filled past the end, "
     "with time (offset+i)/samplerate, identical to the same rows of load_recording. Every array produced by load_recording, load_clip, resample (non-integer "
     "ratios) and compute_spectrogram (whole and fractional numbers of samples per window / hop) must have strictly increasing coordinates that start at the "
     "source's start and stay within one advertised step of first + i*step; source arrays are re-checked after deriving from them. Exploration."
 )
-LEVEL_NOTE = "floor(x*samplerate) accepts the float product or the exact product (they differ only on rounding boundaries, counted); PCM-16 WAV through libsndfile only"
+LEVEL_NOTE = "floor(x*samplerate) accepts the float product or the exact product (they differ only on rounding boundaries, counted); WAV (PCM-16/24/32, float, double) through libsndfile only"
 RULE = (
     "Hypothesis: rate from a palette of 21 rates (93 Hz ... 384 kHz, incl. rates such as 7000, 25000, 50000 for which 1/(1/rate) < rate in binary64), channels 1-3, 100-20000 frames, time expansion with rate x factor integral; "
     "clip start/end = k/rate (on boundary), free floats (off boundary), past the end, zero length, start at EOF; resampling targets 1000-192000; window/hop from {whole samples, fractional samples}. "
@@ -43,18 +43,21 @@ _FILES = {}
 MAX_ELEMENTS = 6_000_000  # per derived array (harness memory budget: 16 workers)
 
 
-def wav(rate, channels, frames):
+SUBTYPES = ["PCM_16", "PCM_24", "PCM_32", "FLOAT", "DOUBLE"]  # every one of them stores the 16-bit test signal exactly
+
+
+def wav(rate, channels, frames, subtype="PCM_16"):
     import soundfile as sf
 
-    key = (rate, channels, frames)
+    key = (rate, channels, frames, subtype)
     if key not in _FILES:
         d = os.path.join(scratch(), "wav")
         os.makedirs(d, exist_ok=True)
-        path = os.path.join(d, f"r{rate}_c{channels}_n{frames}.wav")
+        path = os.path.join(d, f"r{rate}_c{channels}_n{frames}_{subtype}.wav")
         i = np.arange(frames, dtype=np.int64)[:, None]
         c = np.arange(channels, dtype=np.int64)[None, :]
         data = (((i * 7 + c * 4099 + 11) % 65536) - 32768).astype(np.int16)
-        sf.write(path, data, rate, subtype="PCM_16")
+        sf.write(path, data if subtype.startswith("PCM") else data.astype(np.float64) / 32768.0, rate, subtype=subtype)
         _FILES[key] = (path, data.astype(np.float64) / 32768.0)
         if len(_FILES) > 40:
             _FILES.pop(next(iter(_FILES)))
@@ -67,16 +70,17 @@ def rec_spec(draw, max_frames=20000):
     te = draw(st.sampled_from([1.0, 1.0, 1.0, 0.5, 2.0, 5.0, 10.0]))
     if float(int(rate * te)) != rate * te:
         te = 1.0
-    return {"rate": rate, "channels": draw(st.integers(1, 3)), "frames": draw(st.sampled_from([100, 1000, 4410, max_frames, max_frames, 777])), "te": te}
+    return {"rate": rate, "channels": draw(st.integers(1, 3)), "frames": draw(st.sampled_from([100, 1000, 4410, max_frames, max_frames, 777])), "te": te,
+            "subtype": draw(st.sampled_from(["PCM_16", "PCM_16", "PCM_16"] + SUBTYPES))}
 
 
 def recording(rs):
     from soundevent import data
 
-    if rs["rate"] not in RATES or rs["frames"] < 100 or rs["frames"] > 200000 or rs["channels"] < 1 or rs["te"] not in (0.5, 1.0, 2.0, 5.0, 10.0):
+    if rs["rate"] not in RATES or rs["frames"] < 100 or rs["frames"] > 200000 or rs["channels"] < 1 or rs["te"] not in (0.5, 1.0, 2.0, 5.0, 10.0) or rs.get("subtype", "PCM_16") not in SUBTYPES:
         raise ValueError("malformed spec")
 
-    path, frames = wav(rs["rate"], rs["channels"], rs["frames"])
+    path, frames = wav(rs["rate"], rs["channels"], rs["frames"], rs.get("subtype", "PCM_16"))
     sr = int(rs["rate"] * rs["te"])
     rec = data.Recording(uuid=str(uuidlib.UUID(int=1)), path=path, duration=rs["frames"] / sr, channels=rs["channels"], samplerate=sr, time_expansion=rs["te"])
     return rec, frames, sr
